@@ -224,6 +224,16 @@ fn instructions(ctx: &mut Ctx) {
                 gen::item(&mut r, 2, &o, &names)
             })
             .collect();
+        // one case in four: some "records" are bare NAMES that are bound to records with other values
+        // (a record is the CODE item itself: LIST.NEIGHBOR* does not look names up)
+        if k % 4 == 1 && !s.c.is_empty() {
+            for j in 0..1 + r.below(2) {
+                let key = format!("rec{}", j);
+                s.nb.insert(key.clone(), SItem::List(vec![SItem::Int(770 + j as i32), SItem::Float(fb(77.5)), SItem::Bool(true)]));
+                let at = r.below(s.c.len());
+                s.c[at] = SItem::Name(key);
+            }
+        }
         // operands: dims (deepest), index, size, [position]; hostile values included
         let hostile = r.chance(1, 4);
         let size = if hostile { *r.pick(&[-5, -1, 0, 1, 2, 64, 125]) } else { r.range(1, 40) as i32 };
